@@ -158,6 +158,7 @@ def run(case, sim):
 
     # ---- events -------------------------------------------------------------------------
     events = {}
+    times_submitted = collections.Counter()
     for c in w.clients:
         oks = [(s, parse(t)) for s, t in c.transcript]
         oks = [(s, m) for s, m in oks if isinstance(m, list) and m and m[0] == "OK"]
@@ -168,6 +169,10 @@ def run(case, sim):
                 mine = [k for s, k in oks if fr["t_deliver"] <= s <= hi]
                 ok = mine[0][2] if mine and len(mine[0]) > 2 else None
                 events[m[1]["id"]] = {"ev": m[1], "t0": fr["t_deliver"], "t1": hi, "ok": ok, "c": c.idx}
+                times_submitted[m[1]["id"]] += 1
+    for eid, n in times_submitted.items():
+        if n > 1:
+            del events[eid]        # resubmissions are C06's business
     # ---- subscription incarnations ------------------------------------------------------
     subs = []
     for c in w.clients:
@@ -303,6 +308,8 @@ def run(case, sim):
                 continue
             if model.matches(ev, f, "inclusive") != model.matches(ev, f, "strict"):
                 continue        # boundary timestamps excepted
+            if model.matches(ev, f, "strict") != model.matches(ev, f, "strict", bare_as_empty=True):
+                continue        # a bare ["d"] read as "" or not: either reading is legitimate
             live = len([s for s in pushes.get((S["c"], S["id"], eid), []) if s > 0]) > 0
             stored = eid in stored_answers[key]
             probes["agreement_pairs"] += 1
